@@ -806,7 +806,7 @@ impl BuiltInFunction {
                     args[0].as_list(borrowed_heap)?.clone()
                 };
                 let borrowed_heap = heap.borrow();
-                list.sort_by(|a, b| {
+                stable_sort_by(&mut list, &mut |a: &Value, b: &Value| {
                     a.compare(b, &borrowed_heap)
                         .unwrap_or(None)
                         .unwrap_or(std::cmp::Ordering::Equal)
@@ -1499,7 +1499,7 @@ impl BuiltInFunction {
                     args[0].as_list(borrowed_heap)?.clone()
                 };
 
-                list.sort_by(|a, b| {
+                stable_sort_by(&mut list, &mut |a: &Value, b: &Value| {
                     // Only look up the function once, not twice
                     let func_def = get_function_def(func, &heap.borrow());
 
@@ -1866,6 +1866,48 @@ impl FunctionDef {
                 return_value
             }
         }
+    }
+}
+
+/// Stable merge sort. Unlike `slice::sort_by` it never panics when the comparison is not a
+/// total order (values of different types compare as "equal" here); such elements simply
+/// keep their relative order.
+fn stable_sort_by<T: Copy>(
+    items: &mut [T],
+    cmp: &mut impl FnMut(&T, &T) -> std::cmp::Ordering,
+) {
+    let len = items.len();
+    if len < 2 {
+        return;
+    }
+    let mid = len / 2;
+    {
+        let (left, right) = items.split_at_mut(mid);
+        stable_sort_by(left, cmp);
+        stable_sort_by(right, cmp);
+    }
+    let left = items[..mid].to_vec();
+    let right = items[mid..].to_vec();
+    let (mut i, mut j, mut k) = (0, 0, 0);
+    while i < left.len() && j < right.len() {
+        if cmp(&right[j], &left[i]) == std::cmp::Ordering::Less {
+            items[k] = right[j];
+            j += 1;
+        } else {
+            items[k] = left[i];
+            i += 1;
+        }
+        k += 1;
+    }
+    while i < left.len() {
+        items[k] = left[i];
+        i += 1;
+        k += 1;
+    }
+    while j < right.len() {
+        items[k] = right[j];
+        j += 1;
+        k += 1;
     }
 }
 
